@@ -23,6 +23,7 @@ sender) and pending_dials gets (that id, receiver) of the same oneshot channel; 
 started is min(eligible, max_outstanding.saturating_sub(pending_connections.len())); the tick period is
 the configured interval plus at most 1 s of jitter and the tick arm runs the connectivity check.
 Config accessors feeding the dialer (interval, backoff step, backoff cap, connecting cap) are pure projections of their own field.
+The check is driven by one interval owned by the manager loop and created outside it (a timer re-armed per iteration would be starved by busier arms).
 """
 TRUSTED = ["tokio interval ticks no earlier than its period", "std Instant/Duration arithmetic"]
 NOT_DECIDED = ["every timing bound of the property (one interval + jitter, min(max-backoff, k×step) + two intervals)", "that dialing eventually succeeds",
@@ -491,7 +492,11 @@ def run(cx):
         lb = cs[0].body
         lo = Origins(lb)
         iv = lb.calls_to("tokio::time::interval::interval")
+        if not iv:
+            ob.refute_and_stop("tick/persistent-timer", "the manager loop owns no tokio::time::interval: the connectivity check is not driven by one timer that lives across loop iterations "
+                               "(a timer re-armed on every iteration is starved whenever another arm fires more often than the period)", lb.path)
         ob.floor(iv, 1, "tokio::time::interval", exact=True)
+        ob.require(iv[0].bb not in lb.cyclic_blocks(), "tick/timer-created-once", "the interval is (re)created inside the manager loop", lb.path, lb.loc(iv[0].bb))
         p = strip_identity(lo.of_operand(iv[0].args[0]))
         ok = p[0] == "call" and name_matches(p[1], "ops::arith::Add::add")
         if ok:
